@@ -405,7 +405,7 @@ func nilArithmeticRule(P *Program, R *Report, rule string) {
 			R.decide(rule, fmt.Sprintf("%s:%s-result#%d", FuncKey(fn), m, n), "the result of "+m+" (nil if there is none) is nil-tested before it is used", ok, strings.Join(why, "\n"), P.Pos(c.Pos()))
 		}
 	}
-	R.decide(rule, "sites:count", "uses of ModInverse/ModSqrt results on the verification paths were found (>= 2)", n >= 2, fmt.Sprintf("%d", n), "")
+	R.decide(rule, "sites:count", "uses of ModInverse/ModSqrt results on the verification paths were found (>= 1)", n >= 1, fmt.Sprintf("%d", n), "")
 }
 
 // errorResultsUsedRule: in the functions selected by scope, the error a call returns is looked at: the error
